@@ -20,7 +20,24 @@ pub struct Value {
     pub rows: Vec<u8>,
     pub rank: usize,
     pub table: Vec<u8>,
+    pub shape: KeyShape,
 }
+/// the key array's shape is only touched to turn a scalar key into a one-row list
+#[derive(Clone, Debug, Default)]
+pub struct KeyShape;
+impl KeyShape {
+    pub fn prepend(&mut self, _d: usize) {}
+}
+/// in this model every cell of a key table handed to `join` holds a live key (no free cells)
+pub trait MapItem {
+    fn is_any_empty_cell(&self) -> bool {
+        false
+    }
+    fn is_any_tombstone(&self) -> bool {
+        false
+    }
+}
+impl MapItem for Value {}
 impl Value {
     pub fn row_count(&self) -> usize {
         self.rows.len()
@@ -29,7 +46,7 @@ impl Value {
         self.rank
     }
     pub fn into_rows(self) -> impl Iterator<Item = Value> {
-        self.rows.into_iter().map(|k| Value { rows: vec![k], rank: 0, table: Vec::new() })
+        self.rows.into_iter().map(|k| Value { rows: vec![k], rank: 0, table: Vec::new(), shape: KeyShape })
     }
 }
 #[derive(Clone, Debug, Default)]
